@@ -56,6 +56,10 @@ def interp_outputs(model_bytes, seed):
   return [it.get_tensor(d["index"]).tobytes() for d in it.get_output_details()]
 
 
+class LargePathRaised(Exception):
+  """The ordinary path returned a model, the large-model path raised on the same model, recipe and statistics."""
+
+
 def two_paths(build_quantizer, cal):
   """Returns (small bytes, large bytes) through the public API."""
   os.environ.pop(THRESH, None)
@@ -64,7 +68,10 @@ def two_paths(build_quantizer, cal):
   os.environ[THRESH] = "0"
   try:
     q = build_quantizer()
-    large = bytes(q.quantize(cal() if callable(cal) else cal).quantized_model)
+    try:
+      large = bytes(q.quantize(cal() if callable(cal) else cal).quantized_model)
+    except Exception as e:  # pylint: disable=broad-except
+      raise LargePathRaised("%s: %s" % (type(e).__name__, str(e)[:200])) from e
   finally:
     os.environ.pop(THRESH, None)
   return small, large
@@ -165,12 +172,20 @@ def main():
   cases = []
   t0 = time.time()
   drq = Q.OpQuantizationConfig(weight_tensor_config=Q.TensorQuantizationConfig(8, True, Q.QuantGranularity.CHANNELWISE), compute_precision=Q.ComputePrecision.INTEGER)
+  drq4 = Q.OpQuantizationConfig(weight_tensor_config=Q.TensorQuantizationConfig(4, True, Q.QuantGranularity.CHANNELWISE), compute_precision=Q.ComputePrecision.INTEGER)
   for name, model in synthetic_layouts(args.tier):
     def bq(model=model):
       q = quantizer.Quantizer(model)
       q.update_quantization_recipe(".*", Q.TFLOperationName.FULLY_CONNECTED, drq)
       return q
     cases.append((name, bq, None, "zero=0" not in name))
+    # the same layout with 4-bit weights: the rewritten constant is PACKED (two values per byte), its byte length is not
+    # (number of elements) x (item size)
+    def bq4(model=model):
+      q = quantizer.Quantizer(model)
+      q.update_quantization_recipe(".*", Q.TFLOperationName.FULLY_CONNECTED, drq4)
+      return q
+    cases.append((name + " w4", bq4, None, "zero=0" not in name))
     # the same float model handed over in EXTERNAL-buffer form (the only form a model beyond 2 GB can have): made by the library
     # itself - a recipe that selects nothing, written through the large-model path - and quantized through the large path again;
     # the reference is the ordinary path on the ordinary form
@@ -248,8 +263,13 @@ def main():
   for name, bq, cal, has_zero in cases:
     try:
       small, large = two_paths(bq, cal)
+    except LargePathRaised as e:
+      # "for any model, the bytes produced by that path describe the same model": here the path produced nothing
+      chk.violation("the large-model path raised where the ordinary path returned a model (%s): %s" % (name, e),
+                    {"property": "C16", "case": name, "clause": "large-path-raises", "error": str(e)})
+      continue
     except Exception as e:  # pylint: disable=broad-except
-      nraise += 1
+      nraise += 1      # the ordinary path refuses this model / recipe: nothing to compare
       continue
     o = observe(small, large, args.seed)
     o["id"] = len(obs) + 1
